@@ -1,5 +1,5 @@
 (* The types and chains the C10 theorems quantify over (definitions only):
-   wf_fields = the shape Pointerify produces (every field exported and
+   wf_fields = the shape Pointerify produces (every field xexported and
    nil-able: a pointer to a pointerified struct, a pointer to a non-pointer
    leaf, a slice, a map or an interface; embedded fields are pointers to
    structs); empty_ok = the manglers covered by chain_empty. *)
@@ -22,11 +22,11 @@ with wf_fields (fs : fields) : bool :=
   match fs with
   | FNil => true
   | FCons n _ an t r =>
-      exported n && wf_ty t && (if an then is_struct_ptr t else true) && wf_fields r
+      xexported n && wf_ty t && (if an then is_struct_ptr t else true) && wf_fields r
   end.
 
 Definition wf_sf (f : sfield) : bool :=
-  exported (sf_name f) && wf_ty (sf_ty f) && (if sf_anon f then is_struct_ptr (sf_ty f) else true).
+  xexported (sf_name f) && wf_ty (sf_ty f) && (if sf_anon f then is_struct_ptr (sf_ty f) else true).
 
 Definition is_basic (t : ty) : bool := match t with TBasic _ _ => true | _ => false end.
 
